@@ -61,6 +61,8 @@ def cfg_json(f):
          "class_methods": [{"name": "new", "arguments": [], "return_type": {"type": [cls]}}]}
     if f["ext"]:
         d["extends"] = ["Vf" + e for e in f["ext"]]
+    if f.get("prop"):
+        d["instance_properties"] = [{"name": "label", "type": [SIG[f["prop"]]], "access": "accessor"}]
     return d
 
 
@@ -126,9 +128,12 @@ def config_sets(v, work, stats, rng, tier):
         cases = rng.sample(split, 220) + rng.sample([c for c in cases if not c["split"]], 80)
     jobs, meta = [], []
     for ci, c in enumerate(cases):
-        files = [{"cls": f["cls"], "ext": ["P"] if f["ext"] else [], "methods": sorted((d["name"], d["sig"]) for d in f["methods"])}
+        files = [{"cls": f["cls"], "ext": ["P"] if f["ext"] else [], "methods": sorted((d["name"], d["sig"]) for d in f["methods"]),
+                  "prop": f.get("prop", "")}
                  for f in sorted(c["files"], key=lambda f: json.dumps(f, sort_keys=True))]
         prog = probe_program(files)
+        if any(f["prop"] for f in files):
+            prog += "".join("dbtp o%s.label\n" % cl.lower() for cl in sorted({f["cls"] for f in files}))
         for order in itertools.permutations(range(len(files))):
             cfg = write_config(work, files, order, "set%d-%s" % (ci, "".join(map(str, order))))
             jobs.append({"cfg": cfg, "files": {"t.rb": prog}, "args": ["t.rb"]})
@@ -176,6 +181,34 @@ def config_sets(v, work, stats, rng, tier):
                             v.fail(key, "configuration %s loaded in file order %s: o%s.%s(%s) %s, the declarations resolve to %s" % (
                                 json.dumps(files), order, cl.lower(), n, LITS[a], "is rejected: %r" % msgs2[:1] if err2 else "is accepted",
                                 c["res"][cl][n]), C.job_files_for_replay({"cfg": job["cfg"], "files": job["files"], "args": ["t.rb"]}))
+        # (1b) the instance property a read sees: the class's own declaration, else the parent's
+        if any(f["prop"] for f in files):
+            PT = {"I": "Integer", "S": "String"}
+            for order, out, job, _ in runs:
+                rows = rows_of(out)
+                row = len(classes) + len(classes) * len(names) * 3
+                for cl in classes:
+                    row += 1
+                    compared += 1
+                    want = sorted(PT[x] for x in c["prop"][cl])
+                    msgs = rows.get(row, [])
+                    got_ok = bool(want) and msgs[:1] == want[:1] and len(want) == 1
+                    if not want:
+                        got_ok = any("not defined" in m for m in msgs) or msgs == ["Unknown"] or msgs == ["untyped"] or not msgs
+                    if got_ok:
+                        continue
+                    key = "property:%s:%s" % (shape, "inherited" if (cl == "C" and not any(f["cls"] == "C" and f["prop"] for f in files)) else "own")
+                    if v.seen(key):
+                        v.again(key)
+                        continue
+                    b = C.confirm_alone(work, {"cfg": job["cfg"], "files": job["files"], "args": ["t.rb"]}, runs=1)[0]
+                    msgs2 = rows_of(b.get("out") or "").get(row, [])
+                    if (bool(want) and msgs2[:1] == want[:1]) or (not want and msgs2 == msgs and got_ok):
+                        v.count("not_reproduced_blackbox")
+                        continue
+                    v.fail(key, "configuration %s loaded in file order %s: `dbtp o%s.label` says %r, the declarations give %s" % (
+                        json.dumps(files), order, cl.lower(), msgs2[:1], want or "no such property"),
+                        C.job_files_for_replay({"cfg": job["cfg"], "files": job["files"], "args": ["t.rb"]}))
         # (2) every order prints the same
         for order, out, job, _ in runs[1:]:
             compared += 1
